@@ -11,7 +11,7 @@ CONSTANTS
   TdFlags = {FALSE}
   InVecs <- VecsQ
   OrderKinds = {"BIHO"}
-  ActSchemes <- SchemesMixed
+  ActSchemes <- SchemesAll
   LinkCaps = {2}
   MinLinks = 0
   Canonical = TRUE
